@@ -2,7 +2,10 @@
  * Every pthread function the wrappers can reach is wrapped (--wrap), records
  * "<function>:<1 if called on the object the uv wrapper was given>" while a uv call is under
  * observation, and passes through (pthread_cond_wait/timedwait answer 0 without blocking).
- * Case: the name of a uv function; output: the recorded calls, space separated.
+ * Init calls additionally record what they ask for: the observable settings of the attribute
+ * object at the moment of the call (type / kind / clock / pshared; NULL = defaults) and the
+ * by-value arguments, e.g. "pthread_rwlock_init:1:kind=0,pshared=0".
+ * Case: "<uv function> [<value or count>]"; output: the recorded calls, space separated.
  * Compared with Model/Thread.v [passthrough]. */
 #include <stdio.h>
 #include <stdlib.h>
@@ -20,6 +23,12 @@ static char out[1024];
 static void rec(const char* name, int same) {
   if (!recording) return;
   snprintf(out + strlen(out), sizeof out - strlen(out), "%s%s:%d", out[0] ? " " : "", name, same);
+}
+/* what an init call asks for: the observable settings of the attribute object (NULL = an
+ * object with the default settings) or the by-value arguments */
+static void rec_req(const char* fmt, long a, long b) {
+  if (!recording) return;
+  snprintf(out + strlen(out), sizeof out - strlen(out), fmt, a, b);
 }
 
 #define W1(ret, name, T1) \
@@ -48,20 +57,36 @@ W1(int, pthread_barrier_destroy, pthread_barrier_t*)
 
 int __real_pthread_mutex_init(pthread_mutex_t*, const pthread_mutexattr_t*);
 int __wrap_pthread_mutex_init(pthread_mutex_t* m, const pthread_mutexattr_t* a) {
-  rec("pthread_mutex_init", (const void*) m == exp_a); return __real_pthread_mutex_init(m, a);
+  int type = PTHREAD_MUTEX_DEFAULT, psh = PTHREAD_PROCESS_PRIVATE;
+  if (a) { pthread_mutexattr_gettype(a, &type); pthread_mutexattr_getpshared(a, &psh); }
+  rec("pthread_mutex_init", (const void*) m == exp_a); rec_req(":type=%ld,pshared=%ld", type, psh);
+  return __real_pthread_mutex_init(m, a);
 }
 int __real_pthread_rwlock_init(pthread_rwlock_t*, const pthread_rwlockattr_t*);
 int __wrap_pthread_rwlock_init(pthread_rwlock_t* m, const pthread_rwlockattr_t* a) {
-  rec("pthread_rwlock_init", (const void*) m == exp_a); return __real_pthread_rwlock_init(m, a);
+  int kind = PTHREAD_RWLOCK_DEFAULT_NP, psh = PTHREAD_PROCESS_PRIVATE;
+  if (a) { pthread_rwlockattr_getkind_np(a, &kind); pthread_rwlockattr_getpshared(a, &psh); }
+  rec("pthread_rwlock_init", (const void*) m == exp_a); rec_req(":kind=%ld,pshared=%ld", kind, psh);
+  return __real_pthread_rwlock_init(m, a);
 }
 int __real_sem_init(sem_t*, int, unsigned);
 int __wrap_sem_init(sem_t* s, int sh, unsigned v) {
-  rec("sem_init", (const void*) s == exp_a && v == (unsigned) exp_val); return __real_sem_init(s, sh, v);
+  rec("sem_init", (const void*) s == exp_a); rec_req(":pshared=%ld,value=%ld", sh, (long) v);
+  return __real_sem_init(s, sh, v);
 }
 int __real_pthread_barrier_init(pthread_barrier_t*, const pthread_barrierattr_t*, unsigned);
 int __wrap_pthread_barrier_init(pthread_barrier_t* b, const pthread_barrierattr_t* a, unsigned n) {
-  rec("pthread_barrier_init", (const void*) b == exp_a && n == (unsigned) exp_val);
+  int psh = PTHREAD_PROCESS_PRIVATE;
+  if (a) pthread_barrierattr_getpshared(a, &psh);
+  rec("pthread_barrier_init", (const void*) b == exp_a); rec_req(":count=%ld,pshared=%ld", (long) n, psh);
   return __real_pthread_barrier_init(b, a, n);
+}
+int __real_pthread_cond_init(pthread_cond_t*, const pthread_condattr_t*);
+int __wrap_pthread_cond_init(pthread_cond_t* c, const pthread_condattr_t* a) {
+  clockid_t clk = CLOCK_REALTIME; int psh = PTHREAD_PROCESS_PRIVATE;
+  if (a) { pthread_condattr_getclock(a, &clk); pthread_condattr_getpshared(a, &psh); }
+  rec("pthread_cond_init", (const void*) c == exp_a); rec_req(":clock=%ld,pshared=%ld", (long) clk, psh);
+  return __real_pthread_cond_init(c, a);
 }
 int __real_pthread_cond_wait(pthread_cond_t*, pthread_mutex_t*);
 int __wrap_pthread_cond_wait(pthread_cond_t* c, pthread_mutex_t* m) {
@@ -103,12 +128,22 @@ static void nop_entry(void* a) { (void) a; }
 
 #define OBS(stmt) do { out[0] = 0; recording = 1; stmt; recording = 0; } while (0)
 
-static void run_case(const char* f) {
+static void run_case(const char* f, long arg) {
   static uv_mutex_t m; static uv_rwlock_t rw; static uv_sem_t s; static uv_cond_t c;
   static uv_barrier_t b; static uv_key_t k; static uv_once_t g = UV_ONCE_INIT; static int marker;
   uv_thread_t t;
   out[0] = 0;
+  if (!strcmp(f, "errorcheck_macro")) {      /* is the constant a preprocessor macro on this libc? */
+#ifdef PTHREAD_MUTEX_ERRORCHECK
+    printf("1\n");
+#else
+    printf("0\n");
+#endif
+    return;
+  }
   if (!strcmp(f, "uv_mutex_init")) { exp_a = &m; OBS(uv_mutex_init(&m)); uv_mutex_destroy(&m); }
+  else if (!strcmp(f, "uv_mutex_init_recursive")) { exp_a = &m; OBS(uv_mutex_init_recursive(&m)); uv_mutex_destroy(&m); }
+  else if (!strcmp(f, "uv_cond_init")) { exp_a = &c; OBS(uv_cond_init(&c)); }
   else if (!strcmp(f, "uv_mutex_destroy")) { uv_mutex_init(&m); exp_a = &m; OBS(uv_mutex_destroy(&m)); }
   else if (!strcmp(f, "uv_mutex_lock")) { uv_mutex_init(&m); exp_a = &m; OBS(uv_mutex_lock(&m)); uv_mutex_unlock(&m); }
   else if (!strcmp(f, "uv_mutex_trylock")) { uv_mutex_init(&m); exp_a = &m; OBS(uv_mutex_trylock(&m)); uv_mutex_unlock(&m); }
@@ -121,7 +156,7 @@ static void run_case(const char* f) {
   else if (!strcmp(f, "uv_rwlock_wrlock")) { uv_rwlock_init(&rw); exp_a = &rw; OBS(uv_rwlock_wrlock(&rw)); }
   else if (!strcmp(f, "uv_rwlock_trywrlock")) { uv_rwlock_init(&rw); exp_a = &rw; OBS(uv_rwlock_trywrlock(&rw)); }
   else if (!strcmp(f, "uv_rwlock_wrunlock")) { uv_rwlock_init(&rw); uv_rwlock_wrlock(&rw); exp_a = &rw; OBS(uv_rwlock_wrunlock(&rw)); }
-  else if (!strcmp(f, "uv_sem_init")) { exp_a = &s; exp_val = 3; OBS(uv_sem_init(&s, 3)); }
+  else if (!strcmp(f, "uv_sem_init")) { exp_a = &s; OBS(uv_sem_init(&s, (unsigned) arg)); }
   else if (!strcmp(f, "uv_sem_destroy")) { uv_sem_init(&s, 1); exp_a = &s; OBS(uv_sem_destroy(&s)); }
   else if (!strcmp(f, "uv_sem_post")) { uv_sem_init(&s, 1); exp_a = &s; OBS(uv_sem_post(&s)); }
   else if (!strcmp(f, "uv_sem_wait")) { uv_sem_init(&s, 1); exp_a = &s; OBS(uv_sem_wait(&s)); }
@@ -137,7 +172,7 @@ static void run_case(const char* f) {
   else if (!strcmp(f, "uv_key_get")) { uv_key_create(&k); exp_val = (unsigned long) k; OBS(uv_key_get(&k)); }
   else if (!strcmp(f, "uv_key_set")) { uv_key_create(&k); exp_val = (unsigned long) k; exp_b = &marker; OBS(uv_key_set(&k, &marker)); }
   else if (!strcmp(f, "uv_thread_join")) { if (uv_thread_create(&t, nop_entry, NULL)) { printf("nothread\n"); return; } exp_val = (unsigned long) t; OBS(uv_thread_join(&t)); }
-  else if (!strcmp(f, "uv_barrier_init")) { exp_a = &b; exp_val = 1; OBS(uv_barrier_init(&b, 1)); }
+  else if (!strcmp(f, "uv_barrier_init")) { exp_a = &b; OBS(uv_barrier_init(&b, (unsigned) arg)); }
   else if (!strcmp(f, "uv_barrier_wait")) { uv_barrier_init(&b, 1); exp_a = &b; OBS(uv_barrier_wait(&b)); }
   else if (!strcmp(f, "uv_barrier_destroy")) { uv_barrier_init(&b, 1); exp_a = &b; OBS(uv_barrier_destroy(&b)); }
   else { printf("unknown\n"); return; }
@@ -147,8 +182,11 @@ static void run_case(const char* f) {
 int main(void) {
   char line[256];
   while (fgets(line, sizeof line, stdin)) {
-    line[strcspn(line, " \n")] = 0;
-    run_case(line);
+    long arg = 1; char* sp;
+    line[strcspn(line, "\n")] = 0;
+    sp = strchr(line, ' ');
+    if (sp) { *sp = 0; arg = strtol(sp + 1, NULL, 10); }
+    run_case(line, arg);
     fflush(stdout);
   }
   return 0;
